@@ -857,6 +857,9 @@ class Interp:
         return {'fall': outs}
 
     def assign(self, t, v, s, node, quiet=False):
+        if isinstance(t, ast.Subscript) and isinstance(t.slice, ast.Slice) and isinstance(v, (LazyGen, GenObj)):
+            v = self.lazy_drain(v, s)                 # x[a:b] = <lazy iterator>: the items are taken now
+            v = TOP if v is None else v
         if isinstance(t, (ast.Tuple, ast.List)):
             if isinstance(v, (LazyGen, GenObj)):
                 v = self.lazy_drain(v, s)
@@ -4194,7 +4197,21 @@ class Interp:
         except AnalysisError:
             probe = None
         self._receiver, self._force_callee = saved_recv, saved_forced
-        return probe[2] if probe is not None and isinstance(probe[2], M.FunctionInfo) else None
+        if probe is not None and isinstance(probe[2], M.FunctionInfo):
+            return probe[2]
+        if isinstance(call.func, (ast.Name, ast.Attribute)):
+            # a function or bound method held in a variable / attribute (disable = ParameterCommand.disable ; disable())
+            try:
+                v = self.ev(call.func, s.fork())
+            except AnalysisError:
+                v = None
+            if isinstance(v, M.FunctionInfo):
+                return v
+            if isinstance(v, Sym) and isinstance(v.attrs.get('fn'), M.FunctionInfo):
+                return v.attrs['fn']
+            if isinstance(v, Partial) and isinstance(v.func, M.FunctionInfo):
+                return v.func
+        return None
 
     def _is_generator_call(self, call, s):
         saved_recv, saved_forced = getattr(self, '_receiver', None), getattr(self, '_force_callee', None)
